@@ -13,8 +13,8 @@ PLANS = {
                 quick=[("rand", 300, ""), ("lag", 120, ""), ("wsrand", 100, ""), ("withops", 40, ""), ("repoint", 60, ""), ("endwatch", 80, ""), ("recurse", 100, ""), ("recerr", 40, ""), ("heldparent", 30, ""), ("reops", 40, ""), ("tlcev", 367, "k=3"), ("tlcev", 300, "k=4"), ("tlcevlag", 400, "k=3"), ("tlcevlag", 300, "k=4")],
                 thorough=[("rand", 5000, ""), ("lag", 2000, ""), ("wsrand", 2000, ""), ("withops", 800, ""), ("repoint", 800, ""), ("endwatch", 1500, ""), ("recurse", 2000, ""), ("heldparent", 400, ""), ("reops", 600, ""), ("tlcev", 3000, "k=4"), ("tlcev", 8000, "k=5"), ("tlcevlag", 1500, "k=3"), ("tlcevlag", 8000, "k=4")]),
     "C03": dict(engine=INO, mc=["MC_Events"],
-                quick=[("rand", 300, ""), ("burst", 20, "ks=2+3+17+240+700"), ("paced", 40, ""), ("absorb", 24, ""), ("moves", 60, ""), ("lag", 100, ""), ("endwatch", 60, ""), ("heldparent", 40, ""), ("tlcev", 367, "k=3"), ("tlcev", 300, "k=4"), ("tlcevlag", 400, "k=3"), ("tlcevlag", 300, "k=4"), ("tlcevheldlag", 300, "k=4")],
-                thorough=[("rand", 5000, ""), ("burst", 200, "ks=2+3+17+240+2049+5000"), ("paced", 600, ""), ("absorb", 200, ""), ("moves", 1500, ""), ("lag", 2000, ""), ("endwatch", 1000, ""), ("heldparent", 600, ""), ("tlcev", 3000, "k=4"), ("tlcev", 8000, "k=5"), ("tlcevlag", 1500, "k=3"), ("tlcevlag", 8000, "k=4"), ("tlcevheld", 6000, "k=5"), ("tlcevheldlag", 7911, "k=4")]),
+                quick=[("rand", 300, ""), ("burst", 20, "ks=2+3+17+240+700"), ("paced", 40, ""), ("absorb", 24, ""), ("moves", 60, ""), ("lag", 100, ""), ("endwatch", 60, ""), ("heldparent", 40, ""), ("recerr", 40, ""), ("tlcev", 367, "k=3"), ("tlcev", 300, "k=4"), ("tlcevlag", 400, "k=3"), ("tlcevlag", 300, "k=4"), ("tlcevheldlag", 300, "k=4")],
+                thorough=[("rand", 5000, ""), ("burst", 200, "ks=2+3+17+240+2049+5000"), ("paced", 600, ""), ("absorb", 200, ""), ("moves", 1500, ""), ("lag", 2000, ""), ("endwatch", 1000, ""), ("heldparent", 600, ""), ("recerr", 400, ""), ("tlcev", 3000, "k=4"), ("tlcev", 8000, "k=5"), ("tlcevlag", 1500, "k=3"), ("tlcevlag", 8000, "k=4"), ("tlcevheld", 6000, "k=5"), ("tlcevheldlag", 7911, "k=4")]),
     "C04": dict(engine=INO, mc=["MC_WatchSet"],
                 quick=[("wsexh", 196, "k=2"), ("wsexh", 900, "k=3"), ("wsrand", 200, ""), ("repoint", 60, ""), ("tlcws", 600, "k=3"), ("tlcwslag", 334, "k=3"), ("tlcwslag", 400, "k=4"), ("lag", 150, ""), ("endwatch", 100, ""), ("wlpark", 40, ""), ("reops", 60, "")],
                 thorough=[("wsexh", 196, "k=2"), ("wsexh", 2744, "k=3"), ("wsexh", 38416, "k=4"), ("wsrand", 6000, ""), ("repoint", 600, ""), ("tlcws", 100000, "k=4"), ("tlcwslag", 12000, "k=4"),
